@@ -343,6 +343,64 @@ class Item:
             self.rewrites.append({"rule": "R8", "what": "%d Option combinator(s) with a closure (map / and_then / map_or / is_some_and / ok_or_else / unwrap_or_else) desugared to the match of their std definition" % n})
         return self
 
+    def desugar_map_transpose(self):
+        """R8 (Option<Result>): `OPT.map(|x| CALL).transpose()?` is, by the std definitions of Option::map and Option::transpose,
+        `(match OPT { Some(x) => Some(CALL?), None => None })`.  OPT is a field path."""
+        pat = re.compile(r"([\w.]+)\s*\.map\(\|(\w+)\|\s*((?:[^()]|\([^()]*\))*?)\)\s*\.transpose\(\)\?", re.S)
+        self.text, n = pat.subn(lambda m: "(match %s { Some(%s) => Some(%s?), None => None })" % (m.group(1), m.group(2), m.group(3).strip()), self.text)
+        if n:
+            self.rewrites.append({"rule": "R8", "what": "%d `opt.map(|x| call).transpose()?` desugared to `match opt { Some(x) => Some(call?), None => None }`" % n})
+        return self
+
+    def desugar_try_collect(self, ghost_tpl="", invariant_tpl="", end_tpl="", after_tpl=""):
+        """R14: `XS.into_iter().map(|PAT| BODY).try_collect()` - optionally followed by `?` - is the loop that Iterator::map + Itertools::try_collect are:
+               { let mut verif_outK = Vec::new(); let mut verif_tcK = verif_into_iter(XS);
+                 while let Some(PAT) = verif_tcK.next() { verif_outK.push(ELEM); }  verif_outK  /  Ok(verif_outK) }
+        ELEM is `BODY?` when the closure's body is an expression of type Result, and `E` when the body is the block `{ Ok(E) }` (a `?` inside E left the
+        closure with the error, which try_collect returns at once: the same as leaving the function, because the chain is followed by `?` or is the
+        function's tail expression - anything else is an extraction error).  XS is a field path.  Ghost text (a capture of XS@ before it is moved, the
+        unit's loop invariant and proof hints, templates with {K}) is spliced in; it is annotation only.  Returns the number of loops generated."""
+        k = 0
+        while True:
+            src = self.text
+            m = re.search(r"(\w+(?:\s*\.\s*\w+)*?)\s*\.into_iter\(\)\s*\.map\(", src)
+            if not m:
+                break
+            toks = code_tokens(src)
+            ti = next(i for i, t in enumerate(toks) if t[1] == m.end() - 1)
+            close = match_brace(src, toks, ti, "(", ")")
+            after = src[toks[close][2]:]
+            m2 = re.match(r"\s*\.try_collect\(\)(\?)?", after)
+            if not m2:
+                raise ExtractionError("%s: `.into_iter().map(..)` is not followed by `.try_collect()`" % self.name)
+            k += 1
+            question = bool(m2.group(1))
+            end = toks[close][2] + m2.end()
+            if not question and not re.match(r"\s*\}\s*$", src[end:]):
+                raise ExtractionError("%s: a `.try_collect()` without `?` that is not the function's tail expression" % self.name)
+            inner = src[toks[ti][2]:toks[close][1]].strip().rstrip(",").strip()
+            mc = re.match(r"\|((?:[^|])*)\|\s*(->\s*[^{]+)?", inner)
+            if not mc:
+                raise ExtractionError("%s: argument of map is not a closure" % self.name)
+            pat = mc.group(1).strip()
+            body = inner[mc.end():].strip()
+            if mc.group(2):
+                mb = re.match(r"^\{\s*Ok\((.*)\)\s*\}$", body, re.S)
+                if not mb:
+                    raise ExtractionError("%s: closure with a return type whose body is not `{ Ok(..) }`" % self.name)
+                elem = mb.group(1).strip()
+            else:
+                elem = "(%s)?" % body
+            K = str(k)
+            recv = re.sub(r"\s+", "", m.group(1))
+            fmt = lambda t: t.replace("{K}", K)
+            new = ("{\n            let ghost verif_src%s = %s@;\n%s            let mut verif_out%s = Vec::new();\n            let mut verif_tc%s = verif_into_iter(%s);\n"
+                   "            while let Some(%s) = verif_tc%s.next()\n%s            {\n                verif_out%s.push(%s);\n%s            }\n%s            %s\n        }"
+                   % (K, recv, fmt(ghost_tpl), K, K, recv, pat, K, fmt(invariant_tpl), K, elem, fmt(end_tpl), fmt(after_tpl), ("verif_out%s" % K) if question else ("Ok(verif_out%s)" % K)))
+            self.text = src[:m.start(1)] + new + src[end:]
+            self.rewrites.append({"rule": "R14", "what": "`%s.into_iter().map(|%s| ..).try_collect()%s` desugared to the loop it is (push of each mapped element, error leaves the function)" % (recv, pat, "?" if question else "")})
+        return k
+
     def drop_attrs(self):
         """R2: delete #[...] attributes and doc comments inside the extracted text."""
         src = self.text
